@@ -141,7 +141,8 @@ func (h *Host) TakeSnapshot(ctx sdk.Context) *Snap {
 	if sup.IsInt64() {
 		s.Supply = sup.Int64()
 	}
-	s.Params = h.app.ServiceKeeper.GetParams(ctx)
+	// parameters straight from the params subspace (not through the service keeper's getters)
+	h.app.GetSubspace(types.ModuleName).GetParamSet(ctx, &s.Params)
 	return s
 }
 
